@@ -10,6 +10,18 @@ TB = ("Trusted: Lean 4.33 kernel with axioms propext/Classical.choice/Quot.sound
 T_IND = "Lean 4 proof (induction) + regenerated decide tables + differential correspondence with the real pipeline"
 
 CLAIMED = {
+ "C01": dict(engine="lean+bench 3x3", technique="Lean 4 proof (round trip of the reference encoder/decoder along the shared walk, for all parameter lists and valuations) + execution of the real generated stubs x skeletons",
+   text="Partial. Lean 4: decode_encode: for every event list (any parameter multiset, order and bundling), either direction and every valuation of the declared shapes, decoding the encoded payload along the same walk returns exactly the encoded values (bundles are split by member sizes, embedded objects follow their buffer, object arrays are taken by length); with C02's section-order theorem and injectivity of the counts word this makes a counts-faithful transport the identity on canonical envelopes. Refuted for object-bearing structs inside bundles. "
+        "Tie and oracle: the real idlc output for C, C++ and Rust is compiled with upstream's flags and linked with generated callers/implementations into one process; every method of generated file sets is called for 3 valuations through all 9 pairings over a recording copying transport; the implementation must see the caller's inputs and the caller the implementation's outputs, lengths and status; every envelope and reply is compared with the Lean reference encoder. Four classes of genuine defects are known findings, re-confirmed on every run.",
+   note=TB + " The per-backend visitors (slot writes/reads in C, C++, Rust text) are tied by executing the real generated code, not modelled statement by statement; gcc/g++/rustc and the hand-written runtime headers under /repo/tests are trusted."),
+ "C03": dict(engine="lean+bench 3x3", technique="Lean 4 proof (bundle membership, order, stability, size, position) + byte comparison of real envelopes with the Lean reference encoder",
+   text="Partial. Lean 4: bundle members are exactly the small by-value data parameters of the direction; sizes never increase along the bundle; members of equal size keep declaration order (stability); the bundle buffer is the plain concatenation of member images and its length is the sum of the member sizes; the input bundle exists iff there are two or more smalls and is then the very first argument. Refuted: object-bearing small structs inside a bundle (handle bytes in the data buffer). "
+        "Tie/oracle: the bytes every real stub puts into its input buffers and every real skeleton returns in its output buffers (all 9 pairings) are compared with the reference encoding computed by the Lean driver from the same values (there is no second hand-written encoder).",
+   note=TB + " The per-backend visitors (slot writes/reads in C, C++, Rust text) are tied by executing the real generated code, not modelled statement by statement; gcc/g++/rustc and the hand-written runtime headers under /repo/tests are trusted."),
+ "C05": dict(engine="lean+bench 3x3", technique="Lean 4 proof (proxy ownership discipline of the C++ backend incl. arrays of any length) + counting objects through the real generated code",
+   text="Partial. Lean 4: in the model of proxy_base.hpp (adopt / extract / consume / destructor) the C++ skeleton's wrap-call-extract sequence for input objects (single and arrays of any length) and its output-proxy sequence issue no retain and no release, and the stub adopts returned objects on success only; a missing extract is shown to release the caller's object. C and Rust visitors perform no count operation (plain copies, ManuallyDrop / take). "
+        "Tie/oracle: harness-owned counting objects (null, non-null, aliased; direct, in arrays, in structs) are passed through all 9 pairings for success and error returns; after caller and implementation drop what they hold every count must be back at its start and no output object may be adopted on a failed call.",
+   note=TB + " The per-backend visitors (slot writes/reads in C, C++, Rust text) are tied by executing the real generated code, not modelled statement by statement; gcc/g++/rustc and the hand-written runtime headers under /repo/tests are trusted."),
  "C02": dict(engine="lean+tables+facts+cli", technique=T_IND,
    text="Lean 4: the unrestricted statement is refuted from concrete witnesses (OO before OI; embedded objects inside buffer sections; "
         "uncounted object slot of small object structs; no <=15 bound) and a partial theorem proves BI*BO*OI*OO* order for every parameter "
